@@ -427,12 +427,12 @@ func runScenario(sc C20Scenario, siteFunc map[int]string) ScenarioResult {
 	}
 	for pi, phase := range sc.Phases {
 		var pr PhaseResult
-		pr.Records = make([][]string, len(phase))
+		recs := make([][]string, len(phase)) // published as pr.Records only when the phase ran to its end
 		var tasks []*sched.Task
 		for i, ti := range phase {
 			i, prog := i, sc.Tasks[ti]
 			tag := fmt.Sprintf("p%d-t%d", pi, i)
-			tasks = append(tasks, &sched.Task{ID: i, Body: func(t *sched.Task) { pr.Records[i] = execTaskAt(prog, tag) }})
+			tasks = append(tasks, &sched.Task{ID: i, Body: func(t *sched.Task) { recs[i] = execTaskAt(prog, tag) }})
 		}
 		var ch sched.Chooser
 		if pi < len(sc.Decisions) && sc.Decisions[pi] != nil {
@@ -446,7 +446,7 @@ func runScenario(sc C20Scenario, siteFunc map[int]string) ScenarioResult {
 			}
 			ch = &genChooser{r: root.Derive("phase", pi), policy: sc.Policy, mean: mean}
 		}
-		s := &sched.Sched{Tasks: tasks, Chooser: ch, MaxSteps: 2_000_000, Watchdog: 10 * time.Second}
+		s := &sched.Sched{Tasks: tasks, Chooser: ch, MaxSteps: 2_000_000, Watchdog: 60 * time.Second}
 		if siteFunc != nil && len(phase) > 1 {
 			pr.Overlaps = map[string]int{}
 			s.OnPark = func(s *sched.Sched, t *sched.Task, site int) {
@@ -466,7 +466,10 @@ func runScenario(sc C20Scenario, siteFunc map[int]string) ScenarioResult {
 			}
 		}
 		if err := s.Run(); err != nil {
-			pr.Err = err.Error()
+			pr.Err = err.Error() // tasks of an abandoned phase may still be running and writing recs: never read it
+			pr.Records = make([][]string, len(phase))
+		} else {
+			pr.Records = recs
 		}
 		pr.Decisions = s.Decisions
 		pr.Switches = s.Switches
@@ -936,7 +939,7 @@ func genTask(r *prng.R, pool *docPool, idx int, theme string) TaskProg {
 		t.Name = "t" + strconv.Itoa(idx) + ":" + l.Name
 	}
 	if r.Bool(0.08) && theme != "samefile" && theme != "missing" && theme != "times" && theme != "utf16" { // a long plain list: size thresholds of writers and transformations
-		t.Many, t.Spec, t.OpenExt, t.Doc = r.PickInt(300, 1100, 4200), nil, "", nil
+		t.Many, t.Spec, t.OpenExt, t.Doc = r.PickInt(307, 307, 1100, 4200), nil, "", nil // 307: 921 fragments, not a multiple of 2, 4 or 16
 		t.Name = "t" + strconv.Itoa(idx) + ":many-" + strconv.Itoa(t.Many)
 	}
 	t.Ops = genOps(r)
@@ -950,7 +953,7 @@ func genTask(r *prng.R, pool *docPool, idx int, theme string) TaskProg {
 				ops = append(ops, op)
 			}
 		}
-		if t.Many == 300 && r.Bool(0.6) { // Fragment leaves ~900 cues that share their lines: then something that writes into them
+		if t.Many == 307 && r.Bool(0.7) { // Fragment leaves ~900 cues that share their lines: then something that writes into them
 			ops = []api.Op{{Name: "fragment", D: 700 * int64(time.Millisecond)}, {Name: r.Pick("removestyling", "add", "optimize", "unfragment")}}
 		}
 		t.Ops = ops
@@ -1006,7 +1009,7 @@ func genTask(r *prng.R, pool *docPool, idx int, theme string) TaskProg {
 			t.FileWrites = append(t.FileWrites, r.Pick("", "", "", "sub/")+r.Pick("srt", "vtt", "ssa", "ass", "stl", "ttml"))
 		}
 	}
-	if len(t.Writers) > 0 && (r.Bool(0.25) || (t.WFaults != nil && r.Bool(0.6))) { // the list is used again after it was written (or after the attempt failed)
+	if len(t.Writers) > 0 && (r.Bool(0.25) || (t.WFaults != nil && r.Bool(0.9))) { // the list is used again after it was written (or after the attempt failed)
 		for _, op := range genOps(r) {
 			if op.Name != "fragment" && op.Name != "forceduration" && op.Name != "merge" && len(t.PostOps) < 2 {
 				t.PostOps = append(t.PostOps, op)
@@ -1035,6 +1038,7 @@ func genScenario(root *prng.R, pool *docPool, j int, lim c20Limits) C20Scenario 
 			t.Writers, t.WFaults = storm, nil
 			if i%2 == 0 && r.Bool(0.6) { // some of the storm's calls fail while the others succeed
 				t.WFaults = []*simio.WriteFault{{Offset: r.PickInt(0, 1, 100, 1000), Kind: simio.WriteFaultKinds[r.Intn(len(simio.WriteFaultKinds))]}, nil}
+				t.PostOps = []api.Op{{Name: r.Pick("add", "removestyling", "optimize"), D: int64(time.Second)}}
 			}
 		}
 		if theme == "files" { // every task uses the file helpers with the same extension in the same directory
@@ -1104,7 +1108,20 @@ func (e *c20Eval) judge(sc C20Scenario, res ScenarioResult, races []string) (vs 
 	if sc.Real {
 		mode = " (real threads, not replay-exact)"
 	}
+	abandoned := false
+	for _, ph := range res.Phases {
+		if ph.Err != "" {
+			abandoned = true
+		}
+	}
 	for _, rep := range races {
+		// After an abandoned phase (watchdog, step budget) its goroutines keep running unscheduled next to whatever
+		// the child does afterwards: the premise "one runnable task at a time" is gone and so is the meaning of a report.
+		// And a report in which neither access was made by the code under test (or its dependencies) is a defect of
+		// this harness, never of the tree: it is not a verdict.
+		if abandoned || !(strings.Contains(rep, "asticode/go-asti") || strings.Contains(rep, "/inst/")) {
+			continue
+		}
 		sig := raceSignature(rep)
 		vs = append(vs, Violation{Property: "C20", Class: "data-race", Signature: "C20 data-race " + sig + mode,
 			Detail: fmt.Sprintf("the race detector reported a data race between tasks that share no data (%d tasks, policy %s):\n%s", len(sc.Tasks), sc.Policy, trunc(rep, 3000)), Scenario: scJSON})
